@@ -353,6 +353,9 @@ _SIMP = {
     "aff": {"reduce_affine_expression": True},
 }
 BASES_THOROUGH = dict(_SIMP, **{"ev+" + k: dict(v, expand_vectors=True) for k, v in _SIMP.items()})
+BASES.update(BASES_THOROUGH)
+# quick tier: one small model for each (option set, model class) on which the thorough tier finds a difference (see known findings)
+BASES_QUICK_REPRESENTATIVES = (("opt[const-arr-2d]", "ev+rcv"), ("opt[const-assign-loop]", "ev+eca"), ("fun-attr[max|param-value]", "rpv"))
 # under these option sets attribute values are compared as numbers (see _attr_value)
 NUMERIC_BASES = set(BASES_THOROUGH)
 
@@ -508,7 +511,7 @@ def work_edit(item):
             try:
                 m, reads = run_script(text, cls, cfg, steps)
             except Exception as e:
-                col.violation(case + ":raises", f"script {steps} raises {type(e).__name__}: {str(e)[:100]} under {cfg} but not under the "
+                col.violation(case + ":raises", f"script {steps} raises {type(e).__name__}: {' '.join(str(e).split())[:100]} under {cfg} but not under the "
                               "reference configuration", {"model_text": text, **extra})
                 continue
             for r, ((d0, f0s), (d1, f1s)) in enumerate(zip(reads0, reads)):
@@ -546,9 +549,7 @@ def edit_items(items, tier):
         seen.add(cid)
         out += [(cid, text, cls, "", sname, steps) for sname, steps in scripts.items()]
     # the same scripts on models compiled with the other options fixed at non-default values
-    for bname in BASES:
-        if not bname:
-            continue
+    for bname in ("ev",):
         names = EDIT_BASE_MODELS_QUICK + (EDIT_BASE_MODELS_THOROUGH if tier == "thorough" else ())
         snames = EDIT_BASE_SCRIPTS if tier == "quick" else tuple(scripts)
         for cid, text, cls in items:
@@ -587,7 +588,7 @@ def work(item):
             try:
                 m = build(text, cls, cfg)
             except Exception as e:
-                col.violation(case + ":raises", f"configuration {cfg} raises {type(e).__name__}: {str(e)[:100]} but the reference configuration (all three options True) compiles",
+                col.violation(case + ":raises", f"configuration {cfg} raises {type(e).__name__}: {' '.join(str(e).split())[:100]} but the reference configuration (all three options True) compiles",
                               {"model_text": text, "options": cfg})
                 continue
             d1 = describe(m, bname in NUMERIC_BASES)
@@ -636,12 +637,9 @@ def main():
     items += new
     if args.tier == "thorough":
         items += option_models()
-        BASES.update(BASES_THOROUGH)
     # every model under the default remaining options; then selected ones with the remaining options fixed otherwise
     pitems = [m + ("",) for m in items if not (args.tier == "quick" and m[0].startswith("guard[") and not GUARD_QUICK_DEFAULT_BASE(m[0]))]
-    for bname in BASES:
-        if not bname:
-            continue
+    for bname in (["ev"] if args.tier == "quick" else [b for b in BASES if b]):
         if args.tier == "quick":
             chosen = [m for m in items if m[0] in BASE_MODELS_QUICK or m[0].startswith("repo:")] + op_models()
             chosen += [m for k, m in enumerate(new) if m[0].startswith(("guard[", "fun-range[horner|")) or (m[0].startswith("fun-attr[") and k % 3 == 0)]
@@ -652,6 +650,9 @@ def main():
         else:
             chosen = [m for m in items if m[0] in BASE_MODELS_QUICK or m[0].startswith("repo:")] + op_models() + option_models() + new_quick[::3]
         pitems += [m + (bname,) for m in chosen]
+    if args.tier == "quick":
+        pool = {m[0]: m for m in items + option_models()}
+        pitems += [pool[cid] + (bname,) for cid, bname in BASES_QUICK_REPRESENTATIVES]
     eitems = edit_items(items, args.tier)
     for col in run_parallel(work, pitems + eitems, args.jobs):
         rep.merge(col)
@@ -681,7 +682,8 @@ def main():
                      + (f"; thorough only: each of {sorted(_SIMP)} (detect_aliases, replace_*_expressions, eliminate_constant_assignments, replace_*_values, "
                         "resolve_parameter_values, factor_and_simplify_equations, reduce_affine_expression) alone and together with expand_vectors on the "
                         "representatives, the repo models and models with array-literal constants/parameters, dependent parameter values, constant "
-                        "assignments and alias chains" if args.tier == "thorough" else "") + ". "
+                        "assignments and alias chains" if args.tier == "thorough" else
+                        f"; one representative each of the thorough tier's further option sets: {list(BASES_QUICK_REPRESENTATIVES)}") + ". "
                      f"Edit scripts: {len(SCRIPTS) + (len(SCRIPTS_THOROUGH) if args.tier == 'thorough' else 0)} read/edit/read sequences over the public Model API "
                      f"(ops {sorted(OPS)}) on {len({e[0] for e in eitems})} models, every configuration driven through the same script and "
                      "compared with configuration 0 at every read point")
